@@ -60,6 +60,10 @@ def plan(tier, seed):
       specs.append({'shard': '%s-g%d-%s' % (fam, g, c), 'family': fam,
                     'group': g, 'context': c,
                     'weight': {'rsa': 2, 'ec': 6, 'ecdsa': 5}[fam]})
+  for i in range(2 if q else 8):
+    specs.append({'shard': 'rsa-fill-%d' % i, 'family': 'rsa', 'group': i,
+                  'context': 'filler-sweep', 'pairs': 3 if q else 6,
+                  'max': 44 if q else 140, 'weight': 2})
   return specs
 
 
@@ -204,8 +208,72 @@ def _warmup(ctx, fam):
   ctx.count('warmup_runs')
 
 
+def run_fillers(ctx, spec):
+  """Adding healthy artifacts changes nothing for the others: the jointly
+  judging RSA checks see a weak pair (shared prime / shared large divisor of
+  n - 1) next to 0, 1, 2, ... healthy moduli; the pair's verdict and evidence
+  must be the same for every count (tree shapes and set orders all differ)."""
+  from paranoid_crypto.lib import rsa_aggregate_checks as ra
+  from vp.harness import Rng
+  rng = Rng('C17/%d/fillers/%d' % (ctx.seed, spec['group']))
+  fillers = [rng.prime(128) * rng.prime(128) for _ in range(spec['max'])]
+  for pi in range(spec['pairs']):
+    if not ctx.want('pair%d' % pi):
+      continue
+    sp = rng.prime(256)
+    f = rng.prime(160)
+    pair = [sp * rng.prime(256), sp * rng.prime(256)]
+    n1pair = []
+    while len(n1pair) < 2:
+      c = f * (rng.bits(300) | 1) * 2 + 1
+      n1pair.append(c)
+    for name, mk, arts in (('CheckGCD', ra.CheckGCD, pair),
+                           ('CheckGCDN1', ra.CheckGCDN1, n1pair)):
+      seen = {}
+      for k in range(spec['max'] + 1):
+        ns = list(arts) + fillers[:k]
+        Rng('C17/fill/%d/%d/%d' % (spec['group'], pi, k)).shuffle(ns)
+        keys = [gen.rsa_key(n) for n in ns]
+        try:
+          mk().Check(keys)
+        except Exception as e:  # pylint: disable=broad-except
+          ctx.violation('check-raised-%s@%s' % (type(e).__name__, name),
+                        '%d fillers: %r' % (k, e), None)
+          continue
+        for a in arts:
+          key = keys[ns.index(a)]
+          snap = observe.snapshot(key.test_info)
+          ent = observe.entries_dict(snap).get(name)
+          ev = observe.evidence(snap)
+          ctx.count('evaluations')
+          ctx.count('filler_sweep_verdicts')
+          # (the n - 1 record is the gcd with the product of *all* other
+          # n - 1 values: it legitimately picks up small common factors of the
+          # neighbours; only the verdict is compared there)
+          v = (tuple(ent) if ent else None, tuple(sorted(ev.items()))
+               if name == 'CheckGCD' else ())
+          seen.setdefault((a, v), []).append(k)
+      by_art = {}
+      for (a, v), ks in seen.items():
+        by_art.setdefault(a, []).append((v, ks))
+      for a, vs in by_art.items():
+        ctx.distinct('fill', spec['group'], pi, name, a)
+        if len(vs) > 1:
+          vs.sort(key=lambda t: -len(t[1]))
+          ctx.violation('verdict-depends-on-number-of-healthy-neighbours@%s' %
+                        name, '%s: verdict %r with %d..%d healthy neighbours, '
+                        'but %r with %r' % (name, vs[0][0][0], min(vs[0][1]),
+                                            max(vs[0][1]), vs[1][0][0],
+                                            vs[1][1][:8]),
+                        {'check': name, 'group': spec['group'], 'pair': pi})
+  ctx.sample({'family': 'rsa', 'context': 'filler-sweep', 'max_fillers':
+              spec['max']})
+
+
 def run(ctx, spec):
   from paranoid_crypto.lib import paranoid
+  if spec.get('context') == 'filler-sweep':
+    return run_fillers(ctx, spec)
   fam, g, context = spec['family'], spec['group'], spec['context']
   if fam != 'rsa':
     workloads.install_small_maxdiff(2 ** 8)
@@ -354,6 +422,8 @@ def finalize(agg, tier):
     inc.append('only %d compared verdict groups were positive' % positives)
   if not agg['counters'].get('warmup_runs'):
     inc.append('no warm-up context ran')
+  if not agg['counters'].get('filler_sweep_verdicts'):
+    inc.append('no filler sweep ran')
   return viol, inc
 
 
